@@ -142,3 +142,136 @@
         kani::cover!(!ok && k + 1 == out.ops);
         kani::cover!(!ok && k == 3);
     }
+
+// @common
+    use crate::verif_io::ROOT_BUDGET;
+    use std::hash::{Hash, Hasher};
+
+    /// copies of the stubs used by the tile-manager and spill harnesses (see there): injective content hash and
+    /// fixed-shape reference directory encoder (every field a 1-byte varint, asserted)
+    struct PackHasher2 { acc: u64 }
+    impl Hasher for PackHasher2 {
+        fn write(&mut self, bytes: &[u8]) {
+            let mut i = 0;
+            while i < 6 {
+                if i < bytes.len() { self.acc = (self.acc << 8) | bytes[i] as u64; }
+                i += 1;
+            }
+        }
+        fn write_usize(&mut self, i: usize) { self.acc = (self.acc << 8) | (i as u64 & 0xff); }
+        fn finish(&self) -> u64 { self.acc }
+    }
+    fn stub_hash2<R>(value: &impl Hash) -> u64 {
+        let mut h = PackHasher2 { acc: 0 };
+        value.hash(&mut h);
+        h.finish()
+    }
+    fn stub_dir_to_writer(d: &crate::Directory, output: &mut impl Write, compression: Compression) -> Result<()> {
+        if compression != Compression::None {
+            return Err(std::io::Error::from(std::io::ErrorKind::Other));
+        }
+        let n = d.len();
+        assert!(n <= 3);
+        let mut buf = [0u8; 1 + 4 * 3];
+        buf[0] = n as u8;
+        let mut last = 0u64;
+        let mut i = 0;
+        while i < 3 {
+            if i < n {
+                let en = &d[i];
+                if en.length == 0 {
+                    return Err(std::io::Error::from(std::io::ErrorKind::InvalidData));
+                }
+                let delta = en.tile_id - last;
+                last = en.tile_id;
+                let code = if i > 0 && en.offset == d[i - 1].offset + d[i - 1].length as u64 { 0 } else { en.offset + 1 };
+                assert!(delta < 128 && en.run_length < 128 && en.length < 128 && code < 128);
+                buf[1 + i] = delta as u8;
+                buf[1 + n + i] = en.run_length as u8;
+                buf[1 + 2 * n + i] = en.length as u8;
+                buf[1 + 3 * n + i] = code as u8;
+            }
+            i += 1;
+        }
+        output.write_all(&buf[..1 + 4 * n])
+    }
+
+// @h id=H2.2-v$v prop=C02,C17,C18,C13 rep="v:0-3" quick="99" cap=900 mem=20 unwind=8 uw="FixW=130;h2_2_writer=40" stubs="Header::to_writer -> field recorder; Directory::to_writer -> fixed-shape reference encoder (1-byte fields); TileManager::calculate_hash -> injective packing; internal compression None; metadata = empty object" bounds="archive with T = 2 tiles at ids (5,6) [v0] or (5,9) [v1-3], contents [ca], [cb] any bytes; v2, v3: root budget redirected to 5 bytes so the two entries spill into one leaf directory; v3: the output stream fragments every write (k bytes, 1 <= k <= offered); start position 3 in a pre-filled stream"
+    /// whole archive writer with tiles: the header describes exactly the sections that were written (root, metadata, leaf directories, tile data; contiguous, relative to the start), root/leaf bytes decode to the expected entries, each added tile's bytes are found through them, counters exact, header written last
+    #[kani::proof]
+    #[kani::stub(crate::header::Header::to_writer, hdr_to_writer_stub)]
+    #[kani::stub(crate::directory::Directory::to_writer, stub_dir_to_writer)]
+    #[kani::stub(crate::tile_manager::TileManager::calculate_hash, stub_hash2)]
+    fn h2_2_writer_two_tiles_v$v() {
+        const P: usize = 3;
+        let (a, b): (u64, u64) = if $v == 0 { (5, 6) } else { (5, 9) };
+        let spill = $v >= 2;
+        let ca: u8 = kani::any();
+        let cb: u8 = kani::any();
+        let mut p = PMTiles::new(TileType::Png, Compression::None);
+        p.internal_compression = Compression::None;
+        p.add_tile(a, vec![ca]).unwrap();
+        p.add_tile(b, vec![cb]).unwrap();
+        unsafe { ROOT_BUDGET = if spill { 5 } else { 0 }; }
+        let mut arr = [0x55u8; 200];
+        let mut out = FixW::new(&mut arr, P as u64);
+        out.end = 200;
+        out.frag = $v == 3;
+        let r = p.to_writer(&mut out);
+        assert!(r.is_ok());
+        std::mem::forget(r);
+        let (pos, lw_pos, lw_len, min_prev) = (out.pos, out.last_write_pos, out.last_write_len, out.min_pos_prev);
+        #[cfg(verif_replay)]
+        {
+            let h = Header::from_bytes(&arr[P..P + 127]).unwrap();
+            capture(&h);
+        }
+        let h = unsafe { CAP_HDR };
+        assert!(unsafe { CAP_SET } == 1);
+        // expected logical layout
+        let same = ca == cb;
+        let merged = same && b == a + 1;
+        let n_entries: usize = if merged { 1 } else { 2 };
+        let n_content: u64 = if same { 1 } else { 2 };
+        let flat_len = 1 + 4 * n_entries;                 // all entries in one directory
+        let (root_len, leaf_len) = if spill && n_entries == 2 { (5usize, flat_len) } else { (flat_len, 0usize) };
+        assert!(h[0] == 127 && h[1] == root_len as u64);
+        assert!(h[2] == 127 + root_len as u64 && h[3] == 2);
+        assert!(h[4] == h[2] + 2 && h[5] == leaf_len as u64);
+        assert!(h[6] == h[4] + h[5] && h[7] == n_content);
+        assert!(h[8] == 2 && h[9] == n_entries as u64 && h[10] == n_content);
+        let root = P + 127;
+        let meta = root + root_len;
+        let leaf = meta + 2;
+        let data = leaf + leaf_len;
+        assert!(arr[meta] == b'{' && arr[meta + 1] == b'}');
+        assert!(pos as usize == data + n_content as usize);
+        assert!(arr[data + n_content as usize] == 0x55);
+        // tile data: each distinct content once, in id order
+        assert!(arr[data] == ca);
+        if !same { assert!(arr[data + 1] == cb); }
+        // the directory holding the tile entries (root, or the single leaf when spilled)
+        let d = if leaf_len > 0 { leaf } else { root };
+        assert!(arr[d] as usize == n_entries);
+        assert!(arr[d + 1] as u64 == a);                                   // first id (delta from 0)
+        if n_entries == 2 {
+            assert!(arr[d + 2] as u64 == b - a);                           // id delta
+            assert!(arr[d + 3] == 1 && arr[d + 4] == 1);                   // run lengths
+            assert!(arr[d + 5] == 1 && arr[d + 6] == 1);                   // lengths
+            assert!(arr[d + 7] == 1);                                      // offset 0 (+1)
+            // second tile: next content (contiguous => code 0) or the shared first content (offset 0 => code 1)
+            assert!(arr[d + 8] == if same { 1 } else { 0 });
+        } else {
+            assert!(arr[d + 2] == 2 && arr[d + 3] == 1 && arr[d + 4] == 1);
+        }
+        if leaf_len > 0 {
+            // root = one leaf pointer: id a, run 0, length = leaf bytes, offset 0 in the leaf section
+            assert!(arr[root] == 1 && arr[root + 1] as u64 == a && arr[root + 2] == 0 && arr[root + 3] as usize == leaf_len && arr[root + 4] == 1);
+        }
+        // C18 / C17
+        assert!(arr[0] == 0x55 && arr[1] == 0x55 && arr[2] == 0x55);
+        assert!(lw_pos + lw_len == (P + 127) as u64);          // the last write completes the header
+        assert!(min_prev >= (P + 127) as u64 || out.frag);      // nothing earlier touched the header range (full transfers)
+        kani::cover!(same);
+        kani::cover!(!same);
+    }
